@@ -69,7 +69,9 @@ theorem readReg_varCell {r : VReg} (hr : VarCell r) (env env' : Env) {c c' : Con
 
 /-! ## stage 3: events -/
 
-/-- no body statement assigns a primitive or the event flag -/
+/-- no body statement assigns a primitive or the event flag. Only the targets of *statements* are tested here:
+the targets of nested binds are ordinary variables by `valueE` (`valueE_writes_ok`), so for a program of the
+fragment `InOracle` this constrains every assignment. -/
 def WritesOk (evs : List Event) : Bool :=
   evs.all fun ev => ev.body.all fun e => writesOkE e && noFlagWriteE e
 
@@ -90,7 +92,7 @@ def BodyRes (ρ : Rho) (env : Env) (s : Sem.SrcState) (c : Conn) (body : List Ex
   Sem.evalStmts env s body = .outside
 
 theorem lowerBody_res {ρ : Rho} {decls : List Sem.VarDecl} (hρ : RhoOk ρ decls) (env : Env) :
-    ∀ (body : List Expr) (is : List VInstr), body.all stmtOk = true → body.all litsOkE = true →
+    ∀ (body : List Expr) (is : List VInstr), body.all stmtOk2 = true → body.all litsOkE = true →
       (body.all fun e => writesOkE e && noFlagWriteE e) = true → lowerBody ρ body = some is → TmpsOk is →
       ∀ (s : Sem.SrcState) (c : Conn), Sim ρ s c → RegsWf c → BodyRes ρ env s c body is := by
   intro body
@@ -111,7 +113,7 @@ theorem lowerBody_res {ρ : Rho} {decls : List Sem.VarDecl} (hρ : RhoOk ρ decl
       exact ih b hok.2 hlit.2 hwr.2 hb htb s c sim wf
     · rw [BodyRes, evalStmts_single env s e rest hne]
       rcases lowerStmt_res hρ hok.1 hne hlit.1 hwr.1.1 ha hta env s c sim wf with
-        ⟨s1, v, c1, ev, x, sim1, wf1, hev⟩ | ⟨rc, c1, ev, hrc, x, sim1, wf1⟩ | ev
+        ⟨s1, v, c1, ev, x, sim1, wf1, hev⟩ | ⟨sf, rc, c1, ev, hrc, x, sim1, wf1⟩ | ev
       · rw [ev]
         rcases ih b hok.2 hlit.2 hwr.2 hb htb s1 c1 sim1 wf1 with
           ⟨s2, c2, ev2, x2, sim2, wf2, hev2⟩ | ⟨s2, rc, c2, ev2, hrc, x2, sim2, wf2⟩ | ev2
@@ -120,7 +122,7 @@ theorem lowerBody_res {ρ : Rho} {decls : List Sem.VarDecl} (hρ : RhoOk ρ decl
         · exact .inr (.inl ⟨s2, rc, c2, ev2, hrc, by rw [execInstrs_append_ok _ x]; exact x2, sim2, wf2⟩)
         · exact .inr (.inr ev2)
       · rw [ev]
-        exact .inr (.inl ⟨s, rc, c1, rfl, hrc, execInstrs_append_fault _ x hrc, sim1, wf1⟩)
+        exact .inr (.inl ⟨sf, rc, c1, rfl, hrc, execInstrs_append_fault _ x hrc, sim1, wf1⟩)
       · rw [ev]; exact .inr (.inr rfl)
 
 theorem setLastRet_snoc (a : List VInstr) (i : VInstr) (r : VReg) :
@@ -164,6 +166,7 @@ theorem flag_write {ρ : Rho} {decls : List Sem.VarDecl} (hρ : RhoOk ρ decls) 
 theorem lowerFlag_res {ρ : Rho} {decls : List Sem.VarDecl} (hρ : RhoOk ρ decls) {e : Expr} {fi : List VInstr}
     (hp : pureE e = true) (hlit : litsOkE e = true) (hlow : lowerFlag ρ e = some fi) (ht : TmpsOk fi)
     (env : Env) (s : Sem.SrcState) (c : Conn) (sim : Sim ρ s c) (wf : RegsWf c) : FlagRes ρ env s c e fi := by
+  obtain ⟨hst1, hst2⟩ := evalE_pure_state (env := env) e hp s
   obtain ⟨le, hle, ⟨h7, hne, rfl⟩ | ⟨h1, rfl⟩⟩ := lowerFlag_inv hlow
   · cases e with
     | cmd _ => simp [pureE] at hp
@@ -178,24 +181,30 @@ theorem lowerFlag_res {ρ : Rho} {decls : List Sem.VarDecl} (hρ : RhoOk ρ decl
         obtain ⟨r, _, rfl⟩ := hle
         exact hne rfl
     | sexp o l r =>
-      obtain ⟨code, cl, cr, ho, hl, hr, rfl⟩ := lowerE_sexp_inv hle
+      obtain ⟨code, ho⟩ := pureE_sexp_op hp
+      obtain ⟨cl, cr, hl, hr, rfl⟩ := lowerE_sexp_inv ho hle
       obtain ⟨hpl, hpr⟩ := pureE_sexpL hp
       obtain ⟨hll, hlr⟩ := litsOkE_sexp hlit
       simp only [setLastRet_snoc] at ht ⊢
-      have hops := cond_operands hρ hpl hpr hll hlr hl hr ht env sim wf
-      rcases node_res vFlag ho hops with ⟨v, c', ev, x, sim', wf', fr⟩ | ⟨rc, c', ev, hrc, x, sim', wf', fr⟩ | ev
-      · obtain ⟨a1, a2, a3⟩ := flag_write hρ env sim' wf' v
+      have hops := cond_operands hρ (valueE_of_pure hpl) (valueE_of_pure hpr) (noHazard_of_pure hpr) hll hlr hl hr ht
+        env sim wf
+      rcases node_res vFlag ho hops with ⟨s', v, c', ev, x, sim', wf', _⟩ | ⟨s', rc, c', ev, hrc, x, sim', wf'⟩ | ev
+      · have := hst1 s' v ev; subst this
+        obtain ⟨a1, a2, a3⟩ := flag_write hρ env sim' wf' v
         exact .inl ⟨v, _, ev, x, a1, a2, a3⟩
-      · exact .inr (.inl ⟨rc, c', ev, hrc, x, sim', wf'⟩)
+      · have := hst2 s' rc ev; subst this
+        exact .inr (.inl ⟨rc, c', ev, hrc, x, sim', wf'⟩)
       · exact .inr (.inr ev)
   · obtain ⟨ht1, _⟩ := TmpsOk.append ht
-    rcases lowerE_res hρ e hp hlit 0 le env s c hle sim wf ht1 (by intro h; omega) with
-      ⟨v, c', ev, x, sim', wf', rd, fr⟩ | ⟨rc, c', ev, hrc, x, sim', wf', fr⟩ | ev
-    · have hstep : execInstr env c' ⟨1, vFlag, vFlag, le.reg⟩ = (writeReg env c' v vFlag, 0) := by
+    rcases lowerE_res hρ e (valueE_of_pure hp) hlit 0 le env s c hle sim wf ht1 (by intro h; omega) with
+      ⟨s', v, c', ev, x, sim', wf', rd, _⟩ | ⟨s', rc, c', ev, hrc, x, sim', wf'⟩ | ev
+    · have := hst1 s' v ev; subst this
+      have hstep : execInstr env c' ⟨1, vFlag, vFlag, le.reg⟩ = (writeReg env c' v vFlag, 0) := by
         simp only [execInstr, rd]
       obtain ⟨a1, a2, a3⟩ := flag_write hρ env sim' wf' v
       exact .inl ⟨v, _, ev, execInstrs_snoc x hstep (by omega), a1, a2, a3⟩
-    · exact .inr (.inl ⟨rc, c', ev, hrc, execInstrs_append_fault _ x hrc, sim', wf'⟩)
+    · have := hst2 s' rc ev; subst this
+      exact .inr (.inl ⟨rc, c', ev, hrc, execInstrs_append_fault _ x hrc, sim', wf'⟩)
     · exact .inr (.inr ev)
 
 /-- **Stage 3a.** The condition block computes the condition into the event flag. -/
@@ -292,7 +301,7 @@ def EventsRes (ρ : Rho) (env : Env) (p : Program) (s : Sem.SrcState) (c : Conn)
 
 theorem lowerEvents_res {ρ : Rho} {decls : List Sem.VarDecl} (hρ : RhoOk ρ decls) (env : Env) (p : Program)
     (post : List VInstr) :
-    ∀ (evs : List Event), Stratified evs = true → LitsOk evs = true → WritesOk evs = true →
+    ∀ (evs : List Event), InOracle evs = true → LitsOk evs = true → WritesOk evs = true →
       ∀ (idx : Nat) (lp : LP) (pre : List VInstr), lowerEvents ρ evs idx = some lp →
       p.instrs = pre ++ lp.instrs ++ post → pre.length = idx → TmpsOk lp.instrs →
       ∀ (s : Sem.SrcState) (c : Conn), Sim ρ s c → RegsWf c → EventsRes ρ env p s c evs lp.exprs := by
@@ -305,7 +314,7 @@ theorem lowerEvents_res {ρ : Rho} {decls : List Sem.VarDecl} (hρ : RhoOk ρ de
   | cons ev rest ih =>
     intro hstrat hlits hwr idx lp pre hlow hp hpre ht s c sim wf
     obtain ⟨fi, bi, tail, hfi, hbi, htail, rfl⟩ := lowerEvents_cons_inv hlow
-    simp only [Stratified, LitsOk, WritesOk, List.all_cons, Bool.and_eq_true] at hstrat hlits hwr
+    simp only [InOracle, LitsOk, WritesOk, List.all_cons, Bool.and_eq_true] at hstrat hlits hwr
     simp only at hp ht ⊢
     obtain ⟨ht12, htt⟩ := TmpsOk.append ht
     obtain ⟨htf, htb⟩ := TmpsOk.append ht12
@@ -315,7 +324,7 @@ theorem lowerEvents_res {ρ : Rho} {decls : List Sem.VarDecl} (hρ : RhoOk ρ de
       slice_mid (a := pre ++ fi) (b := tail.instrs ++ post) (by rw [hp]; simp [List.append_assoc])
         (by simp [hpre]) rfl
     have ihc := fun s c (sim : Sim ρ s c) (wf : RegsWf c) =>
-      ih (by simpa only [Stratified] using hstrat.2) (by simpa only [LitsOk] using hlits.2)
+      ih (by simpa only [InOracle] using hstrat.2) (by simpa only [LitsOk] using hlits.2)
         (by simpa only [WritesOk] using hwr.2) (idx + fi.length + bi.length) tail (pre ++ fi ++ bi) htail
         (by rw [hp]; simp [List.append_assoc]) (by simp [hpre]; omega) htt s c sim wf
     rw [EventsRes, Sem.evalEvents]
@@ -362,7 +371,7 @@ Corrected statement: `WritesOk` contains, besides "no body statement assigns a p
 (`writesOkE`), "no body statement assigns `__eventFlag`" (`noFlagWriteE`); and `RegsWf c`. Without the
 former the statement is false: `stage3_needs_noFlagWrite` below. -/
 theorem lowerEvents_correct {ρ : Rho} {decls : List Sem.VarDecl} (hρ : RhoOk ρ decls) (evs : List Event)
-    (hstrat : Stratified evs = true) (hlits : LitsOk evs = true) (hwr : WritesOk evs = true)
+    (hstrat : InOracle evs = true) (hlits : LitsOk evs = true) (hwr : WritesOk evs = true)
     (idx : Nat) (lp : LP) (hlow : lowerEvents ρ evs idx = some lp)
     (p : Program) (pre post : List VInstr) (hp : p.instrs = pre ++ lp.instrs ++ post) (hpre : pre.length = idx)
     (ht : TmpsOk lp.instrs) (env : Env) (s : Sem.SrcState) (c : Conn) (sim : Sim ρ s c) (wf : RegsWf c) :
@@ -438,13 +447,13 @@ theorem lowerFlag_shape {ρ : Rho} {decls : List Sem.VarDecl} (hρ : RhoOk ρ de
       rw [hal, List.concat_eq_append] at hops
       simp only [List.mem_append, List.mem_singleton] at hi
       rcases hi with hi | rfl
-      · exact (hops i (List.mem_append_left _ hi)).2.2.2.ne2
-      · exact (hops l (List.mem_append_right _ (List.mem_singleton.mpr rfl))).2.2.2.ne2
+      · exact (hops i (List.mem_append_left _ hi)).op_ne2
+      · exact (hops l (List.mem_append_right _ (List.mem_singleton.mpr rfl))).op_ne2
   · obtain ⟨_, _, hops⟩ := lowerE_shape hρ e 0 le hle
     refine ⟨by simp, fun i hi => ?_⟩
     simp only [List.mem_append, List.mem_singleton] at hi
     rcases hi with hi | rfl
-    · exact (hops i hi).2.2.2.ne2
+    · exact (hops i hi).op_ne2
     · show (1 : Nat) ≠ 2; decide
 
 /-- the lowered events of a non-empty program start with an instruction that is not a DEF -/
@@ -802,7 +811,7 @@ theorem vmInvoke_eq (p : Program) (env : Env) (c : Conn) :
 /-- **Stage 4.** One invocation of the lowered program on the machine shows what the source
 semantics shows (unless the source leaves the fragment), and the simulation is re-established. -/
 theorem invoke_correct {ρ : Rho} {decls : List Sem.VarDecl} (hρ : RhoOk ρ decls) {defs : List VInstr}
-    (hd : DefsFor ρ decls defs) {evs : List Event} (hne : evs ≠ []) (hstrat : Stratified evs = true)
+    (hd : DefsFor ρ decls defs) {evs : List Event} (hne : evs ≠ []) (hstrat : InOracle evs = true)
     (hlits : LitsOk evs = true) (hwr : WritesOk evs = true) {lp : LP} (hlow : lowerProg ρ defs evs = some lp)
     (ht : TmpsOk lp.instrs) (u : Nat) (env : Env) (s : Sem.SrcState) (c : Conn) (sim : Sim ρ s c) (wf : RegsWf c) :
     ofSem (Sem.invoke decls evs env s).2 = none ∨
@@ -851,7 +860,7 @@ theorem invoke_correct {ρ : Rho} {decls : List Sem.VarDecl} (hρ : RhoOk ρ dec
 /-- **Stage 5.** Every run of the lowered program shows the observations of the source semantics,
 as long as the source semantics stays inside the fragment. -/
 theorem lower_run_correct {ρ : Rho} {decls : List Sem.VarDecl} (hρ : RhoOk ρ decls) {defs : List VInstr}
-    (hd : DefsFor ρ decls defs) {evs : List Event} (hne : evs ≠ []) (hstrat : Stratified evs = true)
+    (hd : DefsFor ρ decls defs) {evs : List Event} (hne : evs ≠ []) (hstrat : InOracle evs = true)
     (hlits : LitsOk evs = true) (hwr : WritesOk evs = true) {lp : LP} (hlow : lowerProg ρ defs evs = some lp)
     (ht : TmpsOk lp.instrs) (u : Nat) (inputs : List Env) (s : Sem.SrcState) (c : Conn) (sim : Sim ρ s c)
     (wf : RegsWf c) :
@@ -1014,7 +1023,7 @@ def cexSrcL : Sem.SrcState := Sem.initState [] 0
 `__eventFlag` makes the source stop after the first event while the machine falls through to the
 second one (and sets `Cwnd`). -/
 theorem stage3_needs_noFlagWrite {ρ : Rho} (hρ : RhoOk ρ []) :
-    Stratified cexEvents = true ∧ LitsOk cexEvents = true ∧
+    Stratified cexEvents = true ∧ InOracle cexEvents = true ∧ LitsOk cexEvents = true ∧
     (cexEvents.all fun ev => ev.body.all writesOkE) = true ∧
     lowerEvents ρ cexEvents 0 = some cexLP ∧ TmpsOk cexLP.instrs ∧
     Sim ρ cexSrcL cexConn ∧ RegsWf cexConn ∧
@@ -1022,7 +1031,7 @@ theorem stage3_needs_noFlagWrite {ρ : Rho} (hρ : RhoOk ρ []) :
       ∃ c', execExprs env0 (mkProg 0 cexLP) cexConn cexLP.exprs = (c', 0) ∧ ¬ Sim ρ s' c' := by
   have hflag : ρ "__eventFlag".toList = some ⟨2, 0⟩ := hρ.impls 0 (by decide)
   have hcwnd : ρ "Cwnd".toList = some ⟨2, 4⟩ := hρ.impls 4 (by decide)
-  refine ⟨by decide, by decide, by decide, ?_, ?_, ?_, by simp [RegsWf, cexConn, Regs.zero], ?_⟩
+  refine ⟨by decide, by decide, by decide, by decide, ?_, ?_, ?_, by simp [RegsWf, cexConn, Regs.zero], ?_⟩
   · simp only [cexEvents, lowerEvents, lowerFlag, lowerBody, lowerStmt, lowerE, hflag, hcwnd]
     rfl
   · intro i hi
